@@ -331,7 +331,10 @@ def gen_op(rng, k, sh, kind):
             return [('get_session', sid, ns)]
         if r < 0.68:
             return [('session_nested', sid, ns, rng.choice(['user', 'a']), rng.randrange(5), rng.choice(['cart', 'b']), [rng.randrange(5)])]
-        if r < 0.78:
+        if r < 0.73:
+            return [('session_span', sid, ns, rng.choice(['user', 'a']), rng.randrange(5), rng.choice(['cart', 'b']), [rng.randrange(5)],
+                     rng.choice(['k', 'c']), rng.choice([0, 'v', {}]))]
+        if r < 0.8:
             return [('session_replace', sid, ns, rng.choice([{}, {'k': rng.randrange(9)}, {'user': 'zed'}]))]
         return [('session_set', sid, ns, rng.choice(['user', 'cart', 'k']), rng.choice([1, 'v', [1, 2]]))]
     if kind == 'junk':
